@@ -2,8 +2,9 @@
    for BIN and Tundra (whose width travels in the SAUCE record) and XBin.  The SAUCE part is C11's split_exact. *)
 From Coq Require Import NArith ZArith Bool List Lia PeanoNat.
 From IE Require Import Lib.Tbl Lib.C05Lib Gen.Codepage Gen.Formats Model.Attr Model.C05Buf Model.C05Bin Model.C05XBin
-  Model.C05Tundra Model.C05Spec Model.C02Loaders Model.C05XBinC Model.C05Files
-  Proofs.C05BufProofs Proofs.C05BinProofs Proofs.C05TundraProofs Proofs.C05XBinProofs Proofs.C02BridgeProofs Proofs.C05XBinCProofs.
+  Model.C05Idf Model.C05Tundra Model.C05Spec Model.C02Loaders Model.C05XBinC Model.C05Files
+  Proofs.C05BufProofs Proofs.C05BinProofs Proofs.C05AdfProofs Proofs.C05IdfProofs Proofs.C05TundraProofs Proofs.C05XBinProofs
+  Proofs.C02BridgeProofs Proofs.C05XBinCProofs Proofs.C05IdfWideProofs.
 From IE Require Gen.Sauce Model.Sauce Model.SauceSpec Proofs.SauceProofs.
 Import ListNotations.
 Local Open Scope Z_scope.
@@ -97,6 +98,43 @@ Proof.
   destruct (sauce_glue dp Sauce.FtXBin p name ws d date data load_xb2 Hf0 Hwf Hd Hdp ltac:(discriminate)) as (file & Hw' & Hfb).
   exists file, b. split; [unfold xb_to_bytes; rewrite Hs; exact Hw'|]. split; [|exact Hsame].
   unfold xb_from_bytes. rewrite Hfb. exact Hl.
+Qed.
+
+(* ADF: the record is of type Ansi and carries the width 80 the loader has anyway *)
+Lemma view_carried_adf p name ws date : p_w p = 80 ->
+  adf_sauce_like (Some (sauce_view (SauceSpec.carried Sauce.FtAnsi (wbuf_of p name ws) name date))).
+Proof.
+  intro Hw. unfold SauceSpec.carried, SauceSpec.w_strings, SauceSpec.w_flags, wbuf_of. cbn [Sauce.b_sauce].
+  destruct ws as [w|]; unfold adf_sauce_like, sauce_view; cbn [Sauce.s_width Sauce.b_width s_w]; rewrite Hw; reflexivity.
+Qed.
+
+Lemma adf_file_roundtrip_proof : forall dp p name ws d date,
+  representable_adf p -> has_font0 p -> SauceSpec.wf (wbuf_of p name ws) -> length d = 8%nat -> dp d = Some date ->
+  exists file b, adf_to_bytes true p name ws d = Ok file /\ adf_from_bytes dp file = Ok b /\
+                 same_picture true [0%N] p (pic_of b).
+Proof.
+  intros dp p name ws d date Hr Hf0 Hwf Hd Hdp.
+  pose proof Hr as (_ & Hw & _).
+  destruct (adf_roundtrip_proof p _ Hr (view_carried_adf p name ws date Hw)) as (data & b & Hs & Hl & Hsame).
+  destruct (sauce_glue dp Sauce.FtAnsi p name ws d date data load_adf Hf0 Hwf Hd Hdp ltac:(discriminate)) as (file & Hw' & Hfb).
+  exists file, b. split; [unfold adf_to_bytes; rewrite Hs; exact Hw'|]. split; [|exact Hsame].
+  unfold adf_from_bytes. rewrite Hfb. exact Hl.
+Qed.
+
+(* IDF: the record is of type Bin (width / 2 must fit a byte: widths up to 511); the loader keeps nothing of it *)
+Lemma idf_file_roundtrip_proof : forall dp compress p name ws d date,
+  representable_idf_wide p -> p_w p <= 511 -> has_font0 p -> SauceSpec.wf (wbuf_of p name ws) -> length d = 8%nat -> dp d = Some date ->
+  exists file b, idf_to_bytes compress true p name ws d = Ok file /\ idf_from_bytes dp file = Ok b /\
+                 same_picture true [0%N] p (pic_of b).
+Proof.
+  intros dp comp p name ws d date Hr Hw Hf0 Hwf Hd Hdp.
+  destruct (idf_roundtrip_wide_proof comp p Hr) as (data & b & Hs & Hl & Hsame).
+  pose proof Hr as (_ & Hw1 & _).
+  assert (Hq : Z.quot (p_w p) 2 <= 255).
+  { assert (Z.quot (p_w p) 2 < 256) by (apply Z.quot_lt_upper_bound; lia). lia. }
+  destruct (sauce_glue dp Sauce.FtBin p name ws d date data (fun c _ => load_idf c) Hf0 Hwf Hd Hdp (fun _ => Hq)) as (file & Hw' & Hfb).
+  exists file, b. split; [unfold idf_to_bytes; rewrite Hs; exact Hw'|]. split; [|exact Hsame].
+  unfold idf_from_bytes. rewrite Hfb. exact Hl.
 Qed.
 
 (* ------------------------------------------------------------------ re-save of whole Tundra files *)
